@@ -155,6 +155,26 @@ func c16Years(c *ctx) {
 			rows = append(rows, row)
 		})
 		f["rows"] = rows
+		// the same days asked again after the walk went past the year end (the last row is 1 January of the next year,
+		// which shares this year's lunar year): a day's stars are what they were
+		again := []obj{}
+		for i, r := range rows {
+			d := r["d"].([]int)
+			if r["p"].(int) != 0 || r["x"].(int) != 0 || !((d[1] == 2 && d[2] == 25) || (d[1] == 6 && d[2] == 15) || (d[1] == 10 && d[2] == 10) || (d[1] == 12 && d[2] == 31)) {
+				continue
+			}
+			a := obj{"i": i + 1, "d": d}
+			pa, _ := try(func() {
+				s, _ := safeSolar(d[0], d[1], d[2], 12, 0, 0)
+				l := s.GetLunar()
+				a["ds"] = l.GetDayNineStar().GetIndex()
+				a["ys"] = []int{l.GetYearNineStarBySect(1).GetIndex(), l.GetYearNineStarBySect(2).GetIndex(), l.GetYearNineStarBySect(3).GetIndex(), l.GetYearNineStar().GetIndex()}
+				a["ms"] = []int{l.GetMonthNineStarBySect(1).GetIndex(), l.GetMonthNineStarBySect(2).GetIndex(), l.GetMonthNineStarBySect(3).GetIndex(), l.GetMonthNineStar().GetIndex()}
+			})
+			a["p"] = b2i(pa)
+			again = append(again, a)
+		}
+		f["again"] = again
 		// hour stars: 12 slots (hours 0,1,3,...,21) on seeded days and around the solstices
 		hs := []obj{}
 		hday := func(yy, m, d int) {
